@@ -233,9 +233,9 @@ Print Assumptions C29_sr25519_rules.
    ..._prefix model lib/crypto/sr25519 over go-schnorrkel v1.1.0 and the two host functions
    before the repair): VerifyDeprecated rejected the schnorrkel-0.1.1 vector of sp_core's unit
    test verify_from_old_wasm_works and accepted a current-scheme signature without marker bit;
-   Verify refused the identity key; ext_crypto_sr25519_verify_version_1 accepted a signature over
-   another message -- its answer depended on the key alone; version 2 accepted a forged signature
-   under the all-zero key *)
+   Verify refused the identity key; ext_crypto_sr25519_verify_version_1 accepted a forged signature
+   -- its answer depended on the key alone; version 2 accepted a forged signature under the
+   all-zero key *)
 Theorem C29_sr25519_prefix_refuted :
   (exists pk msg sig, sr25519_verify_deprecated_ref pk msg sig = true
                       /\ sr25519_verify_deprecated_prefix pk sig msg = VFail)
@@ -312,6 +312,9 @@ Example C29_nonvacuous :
   /\ (exists pk msg sig, secp256k1_verify_signature pk sig msg = true)
   /\ (exists pk msg sig, host_ecdsa_verify pk msg sig = true).
 Proof. exact nonvacuous_all. Qed.
+(* the accepting branch of verify is inhabited (identity key, cheap to re-check; acceptance under
+   an ordinary key: the sr25519-crust vector in C29/VectorsSr25519.v) and so is the pre-audit
+   branch of verify_deprecated (sp_core's verify_from_old_wasm_works vector) *)
 Example C29_sr25519_nonvacuous :
   (exists pk msg sig, sr25519_verify_ref pk msg sig = true /\ sr25519_verify_signature pk sig msg = VOk)
   /\ (exists pk msg sig, sr_marked sig = false /\ sr25519_verify_deprecated_ref pk msg sig = true).
